@@ -84,6 +84,11 @@ func sym(s string) string {
 
 // Declare a fresh constant of the given sort and return its name.
 func (vc *VC) Const(prefix, sort string) string {
+	if len(vc.Bound) > 0 && !strings.HasPrefix(prefix, "q.") {
+		// a fresh constant introduced while a quantified variable is in scope would stand for
+		// one value for all instances: unsound.  (Evaluations under quantifiers must be pure.)
+		panic(unsupported("fresh value (" + prefix + ") needed under a quantifier: the expression is not pure"))
+	}
 	name := sym(vc.fresh(prefix))
 	vc.decls = append(vc.decls, decl{sym: name, text: fmt.Sprintf("(declare-const %s %s)", name, sort)})
 	return name
